@@ -1,5 +1,9 @@
 #!/bin/sh
 # usage: tools/sweep.sh "<seeds>" [props...]  — runs quick checks for several seeds, prints a summary
+# PRIVATE_REPO=1: work on a private copy of /repo (so that experiments in /repo do not disturb a long background run)
+if [ -n "$PRIVATE_REPO" ]; then
+  R=$(mktemp -d /tmp/repo_copy.XXXXXX); cp -a /repo/. "$R"; (cd "$R" && git checkout -q -- . 2>/dev/null); export VERIF_REPO="$R"; trap 'rm -rf "$R"' EXIT
+fi
 SEEDS="$1"; shift
 PROPS="$@"
 [ -z "$PROPS" ] && PROPS=$(python3 -c "import json;print(' '.join(c['property_id'] for c in json.load(open('MANIFEST.json'))['checks']))")
